@@ -1,4 +1,5 @@
 import RV.Proofs.TreeNode
+import RV.Model.TreeFile
 /-!
 # The ordering invariant of the tree and the abstraction to a sorted association list
 
@@ -50,19 +51,35 @@ theorem pidsEnts_append (l r : List (Key × Node)) : pidsEnts (l ++ r) = pidsEnt
     obtain ⟨ki, c⟩ := x
     simp [pidsEnts, ih]
 
+/-! ## counting leaf keys (`stats.NumLeafKeys`) -/
+
+theorem countLeafKeysEnts_append (l r : List (Key × Node)) :
+    countLeafKeysEnts (l ++ r) = countLeafKeysEnts l + countLeafKeysEnts r := by
+  induction l with
+  | nil => simp [countLeafKeysEnts]
+  | cons x rest ih =>
+    obtain ⟨ki, c⟩ := x
+    simp [countLeafKeysEnts, ih]; omega
+
+theorem countLeafKeys_leaf (p : Nat) (es : List (Key × Val)) (h : es.length < 2 ^ 32) :
+    countLeafKeys (.leaf p es) = es.length := by
+  rw [countLeafKeys]; exact Node.numKeys_eq _ h
+
 /-! ## conservation of pages
 
 `Cons a a' X Y`: going from allocator state `a` to `a'`, the pages `X` (of the part of the tree
 that was worked on) became the pages `Y`; counted with multiplicity, `Y` plus the new free list
 is `X` plus the old free list plus the pages freshly taken from the frontier. -/
-def Cons (a a' : Alloc) (X Y : List Nat) : Prop :=
-  a.nextPage ≤ a'.nextPage ∧
-  ∀ x, List.count x Y + List.count x a'.free =
+structure Cons (a a' : Alloc) (X Y : List Nat) : Prop where
+  np : a.nextPage ≤ a'.nextPage
+  cnt : ∀ x, List.count x Y + List.count x a'.free =
     List.count x X + List.count x a.free + List.count x (List.range' a.nextPage (a'.nextPage - a.nextPage))
+  /-- `stats.NumPagesFree` moves in step with the length of the free list -/
+  pf : a'.pagesFree - (a'.free.length : Int) = a.pagesFree - (a.free.length : Int)
 
-theorem Cons.same {a a' : Alloc} (h1 : a'.nextPage = a.nextPage) (h2 : a'.free = a.free) (X : List Nat) :
-    Cons a a' X X := by
-  refine ⟨by omega, fun x => ?_⟩
+theorem Cons.same {a a' : Alloc} (h1 : a'.nextPage = a.nextPage) (h2 : a'.free = a.free)
+    (h3 : a'.pagesFree = a.pagesFree) (X : List Nat) : Cons a a' X X := by
+  refine ⟨by omega, fun x => ?_, by rw [h2, h3]⟩
   rw [h1, h2]; simp
 
 theorem count_range'_split (x s m n : Nat) :
@@ -72,7 +89,7 @@ theorem count_range'_split (x s m n : Nat) :
 
 theorem Cons.trans {a a' a'' : Alloc} {X Y Z : List Nat} (h1 : Cons a a' X Y) (h2 : Cons a' a'' Y Z) :
     Cons a a'' X Z := by
-  refine ⟨by have := h1.1; have := h2.1; omega, fun x => ?_⟩
+  refine ⟨by have := h1.1; have := h2.1; omega, fun x => ?_, by have := h1.3; have := h2.3; omega⟩
   have e1 := h1.2 x
   have e2 := h2.2 x
   have hs : a''.nextPage - a.nextPage = (a'.nextPage - a.nextPage) + (a''.nextPage - a'.nextPage) := by
@@ -85,24 +102,24 @@ theorem Cons.trans {a a' a'' : Alloc} {X Y Z : List Nat} (h1 : Cons a a' X Y) (h
 theorem Cons.congr {a a' : Alloc} {X Y X' Y' : List Nat} (h : Cons a a' X Y)
     (hX : ∀ x, List.count x X' = List.count x X) (hY : ∀ x, List.count x Y' = List.count x Y) :
     Cons a a' X' Y' :=
-  ⟨h.1, fun x => by rw [hX, hY]; exact h.2 x⟩
+  ⟨h.1, fun x => by rw [hX, hY]; exact h.2 x, h.3⟩
 
 /-- two parts of the tree worked on one after the other -/
 theorem Cons.seq {a a' a'' : Alloc} {X Y X2 Y2 : List Nat} (h1 : Cons a a' X Y) (h2 : Cons a' a'' X2 Y2) :
     Cons a a'' (X ++ X2) (Y ++ Y2) := by
   have f1 : Cons a a' (X ++ X2) (Y ++ X2) := by
-    refine ⟨h1.1, fun x => ?_⟩
+    refine ⟨h1.1, fun x => ?_, h1.3⟩
     have := h1.2 x
     simp only [List.count_append]; omega
   have f2 : Cons a' a'' (Y ++ X2) (Y ++ Y2) := by
-    refine ⟨h2.1, fun x => ?_⟩
+    refine ⟨h2.1, fun x => ?_, h2.3⟩
     have := h2.2 x
     simp only [List.count_append]; omega
   exact f1.trans f2
 
 theorem Cons.frame {a a' : Alloc} {X Y : List Nat} (h : Cons a a' X Y) (F G : List Nat) :
     Cons a a' (F ++ X ++ G) (F ++ Y ++ G) :=
-  ⟨h.1, fun x => by have := h.2 x; simp only [List.count_append]; omega⟩
+  ⟨h.1, fun x => by have := h.2 x; simp only [List.count_append]; omega, h.3⟩
 
 theorem okNode_weaken {mk b b' : Nat} {n : Node} {lo hi : Key} (h : okNode mk b n lo hi) (hb : b ≤ b') :
     okNode mk b' n lo hi := by
